@@ -436,17 +436,111 @@ impl Sweep for Universe {
     }
 }
 
+/// The 255-character limit of a *stored* string, for every combination of
+/// target, previous content of the target and new value: the outcome must
+/// depend on the number of characters of the new value only.
+struct StoreLimit;
+
+fn build(len: usize, c: &str) -> String {
+    // an expression of `len` characters c (concatenation itself is not limited)
+    let code = c.chars().next().map(|x| x as u32).unwrap_or(97);
+    if len == 0 {
+        "\"\"".to_string()
+    } else {
+        let mut parts = vec![];
+        let mut left = len;
+        while left > 0 {
+            let n = left.min(255);
+            parts.push(format!("STRING$({},{})", n, code));
+            left -= n;
+        }
+        parts.join("+")
+    }
+}
+
+impl Sweep for StoreLimit {
+    fn name(&self) -> String {
+        "store-limit-after-every-previous-content".into()
+    }
+    fn shards(&self) -> usize {
+        3
+    }
+    fn run_shard(&self, shard: usize, ctx: &mut Ctx) {
+        let (target, setup) = [("R$", ""), ("R$(2)", ""), ("W$(1,1)", "DIM W$(2,2)")][shard];
+        let prevs: Vec<(usize, &str)> = vec![(0, ""), (1, "a"), (255, "a"), (100, "é"), (200, "é"), (255, "é"), (130, "日"), (255, "日")];
+        let lens = [0usize, 1, 2, 128, 254, 255, 256, 257, 300, 399, 400, 401, 510, 700];
+        for unset in [true, false] {
+            for (plen, pc) in &prevs {
+                if unset && *plen != 0 {
+                    continue;
+                }
+                for l in lens {
+                    for c in ["a", "é", "日"] {
+                        for tail in ["", "+\"z\"", "+\"é\""] {
+                            let newlen = l + if tail.is_empty() { 0 } else { 1 };
+                            let first = if unset { setup.to_string() } else { format!("{}{}{}={}", setup, if setup.is_empty() { "" } else { ":" }, target, build(*plen, pc)) };
+                            let second = format!("{}={}{}", target, build(l, c), tail);
+                            let third = format!("PRINT LEN({});ASC({}+\"!\")", target, target);
+                            let text = format!("{} / {} / {}", first, second, third);
+                            if !ctx.begin(&text) {
+                                continue;
+                            }
+                            let r = guard(|| {
+                                let mut s = Session::new();
+                                if !first.is_empty() {
+                                    s.enter(&first);
+                                }
+                                s.take();
+                                s.enter(&second);
+                                let e2 = s.take();
+                                s.enter(&third);
+                                (e2, s.take())
+                            });
+                            let (e2, e3) = match r {
+                                Err(p) => {
+                                    ctx.violation("store-limit/panic", p);
+                                    continue;
+                                }
+                                Ok(x) => x,
+                            };
+                            let err = e2.iter().any(|e| matches!(e, Ev::Err(_)));
+                            let out = e3.iter().find_map(|e| if let Ev::Out(t) = e { Some(t.clone()) } else { None }).unwrap_or_default();
+                            let too_long = newlen > 255;
+                            let (explen, expfirst) = if too_long {
+                                (*plen, if *plen == 0 { '!' } else { pc.chars().next().unwrap() })
+                            } else {
+                                (newlen, if l > 0 { c.chars().next().unwrap() } else if tail.is_empty() { '!' } else { tail.chars().nth(2).unwrap() })
+                            };
+                            let expout = format!(" {}  {} \n", explen, expfirst as u32);
+                            ctx.nontrivial(hash64(&(too_long, &expout, *plen)));
+                            if err != too_long {
+                                ctx.violation(
+                                    if too_long { "store-limit/longer-than-255-characters-stored" } else { "store-limit/error-for-a-string-that-fits" },
+                                    format!("{} : new value has {} characters, error={}", text, newlen, err),
+                                );
+                            } else if out != expout {
+                                ctx.violation("store-limit/wrong-content-afterwards", format!("{} : expected {:?}, printed {:?}", text, expout, out));
+                            }
+                        }
+                    }
+                }
+            }
+        }
+        ctx.sample();
+    }
+}
+
 impl Check for C07 {
     fn id(&self) -> &'static str {
         "C07"
     }
     fn sweeps(&self, tier: Tier) -> Vec<Box<dyn Sweep>> {
-        vec![Box::new(Universe { extra_strings: true, max_len: tier.pick(3, 5) })]
+        vec![Box::new(Universe { extra_strings: true, max_len: tier.pick(3, 5) }), Box::new(StoreLimit)]
     }
     fn meta(&self, tier: Tier) -> Meta {
         Meta {
             bound: format!(
-                "strings {{\"\", a, ab, abc, é, aé, éa, 日本, aXbXc, abcabc, 255 x a, 255 x é}}{}; positions / lengths {{-1, 0, 1, 2, 3, len-1, len, len+1, 255, 256, 32767, 1.5, -0.5, 40000}}; patterns {{\"\", a, b, c, é, bc, zz, X, 本, ab, ca, the string itself}}; codes {{-1, 0, 10, 65, 233, 55295, 55296, 57343, 57344, 1114111, 1114112, 65.5}}; 40 VAL inputs; every function (LEN LEFT$ RIGHT$ MID$ INSTR ASC CHR$ STRING$ SPC STR$ VAL HEX$ OCT$), MID$ assignment with 6 replacement strings, concatenation and the six comparisons over all pairs - all tuples, through the public entry points and through the interpreter (string results stored to a variable)",
+                "strings {{\"\", a, ab, abc, é, aé, éa, 日本, aXbXc, abcabc, 255 x a, 255 x é}}{}; positions / lengths {{-1, 0, 1, 2, 3, len-1, len, len+1, 255, 256, 32767, 1.5, -0.5, 40000}}; patterns {{\"\", a, b, c, é, bc, zz, X, 本, ab, ca, the string itself}}; codes {{-1, 0, 10, 65, 233, 55295, 55296, 57343, 57344, 1114111, 1114112, 65.5}}; 40 VAL inputs; every function (LEN LEFT$ RIGHT$ MID$ INSTR ASC CHR$ STRING$ SPC STR$ VAL HEX$ OCT$), MID$ assignment with 6 replacement strings, concatenation and the six comparisons over all pairs - all tuples, through the public entry points and through the interpreter (string results stored to a variable); the store limit for 3 targets (scalar, array element, element of a DIMmed 2-D array) x 9 previous contents (unset, empty, 1..255 characters of 1, 2 and 3 bytes) x 14 new lengths 0..700 x 3 characters x 3 tails",
                 if tier == Tier::Thorough { " plus all 363 strings of length <=5 over {a, b, é}" } else { " plus all 39 strings of length <=3 over {a, b, é}" }
             ),
             rule: "a case is one call (API) or one entered line (interpreter); distinct_nontrivial = distinct (function, expected result) pairs".into(),
